@@ -65,9 +65,27 @@ func TestParityExhaustive(t *testing.T) {
 // ---- NTLMv1 ------------------------------------------------------------------------------------
 
 type v1Case struct {
-	Password  string `json:"password,omitempty"` // empty: NT-hash constructor
+	// Ctor names how the instance comes into being: "password" (NewNTLMv1WithPassword), "nthash"
+	// (NewNTLMv1WithNTHash) or "literal" (a struct literal with Password set and NTHash left empty,
+	// the form for which Hash documents that it derives the NT hash itself). Replay files written
+	// before this field existed have none: a non-empty password then means "password".
+	Ctor      string `json:"ctor,omitempty"`
+	Password  string `json:"password,omitempty"`
 	NTHash    vf.Hex `json:"nt_hash"`
 	Challenge vf.Hex `json:"server_challenge"`
+	// First is the entry point that is called first on the fresh instance (ntresponse, hash, string,
+	// lmresponse); the others follow in the fixed order, then all of them are called a second time.
+	First string `json:"first,omitempty"`
+}
+
+func (c v1Case) ctor() string {
+	if c.Ctor != "" {
+		return c.Ctor
+	}
+	if c.Password != "" {
+		return "password"
+	}
+	return "nthash"
 }
 
 func genChallenge(t *rapid.T, label string) vf.Hex {
@@ -81,8 +99,13 @@ func genChallenge(t *rapid.T, label string) vf.Hex {
 	}
 }
 
-func genASCIIPassword(t *rapid.T) string {
-	n := rapid.IntRange(1, 20).Draw(t, "pwlen")
+// genASCIIPasswordMin draws a 7-bit ASCII password of at least min characters: mostly up to 20, one in
+// twelve from a long tail (LM truncates at 14, NT does not truncate at all).
+func genASCIIPasswordMin(t *rapid.T, min int) string {
+	n := rapid.IntRange(min, 20).Draw(t, "pwlen")
+	if rapid.IntRange(0, 11).Draw(t, "pwlenClass") == 11 {
+		n = rapid.IntRange(21, 300).Draw(t, "pwlenLong")
+	}
 	b := make([]byte, n)
 	for i := range b {
 		b[i] = byte(rapid.IntRange(0x20, 0x7e).Draw(t, "pwch"))
@@ -90,46 +113,80 @@ func genASCIIPassword(t *rapid.T) string {
 	return string(b)
 }
 
+func genASCIIPassword(t *rapid.T) string { return genASCIIPasswordMin(t, 0) }
+
 func exactCap(b []byte) []byte { o := make([]byte, len(b)); copy(o, b); return o[:len(b):len(b)] }
+
+var v1EntryPoints = []string{"ntresponse", "hash", "string", "lmresponse"}
 
 func checkV1(c v1Case) []vf.Finding {
 	var fs []vf.Finding
 	var nt [16]byte
 	var inst *ntlmv1.NTLMv1
 	var err error
-	if c.Password != "" {
+	ctor := c.ctor()
+	switch ctor {
+	case "password":
 		nt = refcrypto.NT(c.Password)
 		inst, err = ntlmv1.NewNTLMv1WithPassword("DOM", "user", c.Password, exactCap(c.Challenge))
-	} else {
+	case "literal":
+		nt = refcrypto.NT(c.Password)
+		inst = &ntlmv1.NTLMv1{Domain: "DOM", Username: "user", Password: c.Password, ServerChallenge: exactCap(c.Challenge)}
+	case "nthash":
 		copy(nt[:], c.NTHash)
 		inst, err = ntlmv1.NewNTLMv1WithNTHash("DOM", "user", exactCap(c.NTHash), exactCap(c.Challenge))
+	default:
+		return []vf.Finding{vf.F("harness", "bad-case", "constructor %q", c.Ctor)}
 	}
 	if err != nil {
 		return []vf.Finding{vf.F("ntlmv1.New", "valid-input-rejected", "%v", err)}
 	}
 	want := refcrypto.DESL(nt[:], c.Challenge)
-	ntr, err := inst.NTResponse()
-	if err != nil || !bytes.Equal(ntr, want) {
-		fs = append(fs, vf.F("NTLMv1.NTResponse", "differs-from-DESL", "hash %x challenge %x: got %x (err %v) want %x", nt, []byte(c.Challenge), ntr, err, want))
-	}
-	h, err := inst.Hash()
-	if err != nil || !bytes.Equal(h, want) {
-		fs = append(fs, vf.F("NTLMv1.Hash", "differs-from-DESL", "hash %x challenge %x: got %x (err %v) want %x", nt, []byte(c.Challenge), h, err, want))
-	}
-	if s := inst.String(); !strings.EqualFold(s, hex.EncodeToString(want)) {
-		fs = append(fs, vf.F("NTLMv1.String", "differs-from-DESL", "got %s want %x", s, want))
-	}
-	// order independence: the same instance again, NTResponse after Hash
-	ntr2, _ := inst.NTResponse()
-	if !bytes.Equal(ntr2, want) {
-		fs = append(fs, vf.F("NTLMv1.NTResponse", "changes-after-Hash", "got %x want %x", ntr2, want))
-	}
-	if c.Password != "" {
-		lmr, err := inst.LMResponse()
-		wantLM := refcrypto.DESL(refcrypto.LM(c.Password), c.Challenge)
-		if err != nil || !bytes.Equal(lmr, wantLM) {
-			fs = append(fs, vf.F("NTLMv1.LMResponse", "differs-from-DESL", "pw %q challenge %x: got %x (err %v) want %x", c.Password, []byte(c.Challenge), lmr, err, wantLM))
+	wantLM := refcrypto.DESL(refcrypto.LM(c.Password), c.Challenge)
+	// the entry points, First first; the LM response is defined only for instances that know the password
+	var order []string
+	for _, e := range v1EntryPoints {
+		if e == c.First {
+			order = append([]string{e}, order...)
+		} else {
+			order = append(order, e)
 		}
+	}
+	call := func(e string, kind string) {
+		switch e {
+		case "ntresponse":
+			ntr, err := inst.NTResponse()
+			if err != nil || !bytes.Equal(ntr, want) {
+				fs = append(fs, vf.F("NTLMv1.NTResponse", kind, "%s instance, hash %x challenge %x, call order %v: got %x (err %v) want %x", ctor, nt, []byte(c.Challenge), order, ntr, err, want))
+			}
+		case "hash":
+			h, err := inst.Hash()
+			if err != nil || !bytes.Equal(h, want) {
+				fs = append(fs, vf.F("NTLMv1.Hash", kind, "%s instance, hash %x challenge %x, call order %v: got %x (err %v) want %x", ctor, nt, []byte(c.Challenge), order, h, err, want))
+			}
+		case "string":
+			if s := inst.String(); !strings.EqualFold(s, hex.EncodeToString(want)) {
+				fs = append(fs, vf.F("NTLMv1.String", kind, "%s instance, call order %v: got %s want %x", ctor, order, s, want))
+			}
+		case "lmresponse":
+			if ctor == "nthash" {
+				return
+			}
+			lmr, err := inst.LMResponse()
+			if err != nil || !bytes.Equal(lmr, wantLM) {
+				fs = append(fs, vf.F("NTLMv1.LMResponse", kind, "%s instance, pw %q challenge %x, call order %v: got %x (err %v) want %x", ctor, c.Password, []byte(c.Challenge), order, lmr, err, wantLM))
+			}
+		}
+	}
+	for _, e := range order {
+		call(e, "differs-from-DESL")
+	}
+	if len(fs) > 0 {
+		return fs
+	}
+	// order independence: every entry point again on the same instance, after all the others have run
+	for _, e := range order {
+		call(e, "changes-after-other-entry-points")
 	}
 	if !bytes.Equal(inst.ServerChallenge, c.Challenge) {
 		fs = append(fs, vf.F("NTLMv1", "server-challenge-modified", "%x", inst.ServerChallenge))
@@ -139,9 +196,12 @@ func checkV1(c v1Case) []vf.Finding {
 
 func v1Nontrivial(c v1Case) bool {
 	h := c.NTHash
-	if c.Password != "" {
+	if c.ctor() != "nthash" {
 		x := refcrypto.NT(c.Password)
 		h = x[:]
+	}
+	if len(h) != 16 {
+		return false
 	}
 	nz := func(b []byte) bool { return !bytes.Equal(b, make([]byte, len(b))) }
 	return nz(h[:7]) && nz(h[7:14]) && nz(h[14:])
@@ -151,9 +211,18 @@ func TestV1(t *testing.T) {
 	s := vf.Begin(t, P, "v1-desl")
 	vf.Rapid(s, vf.N(8000, 150000), func(t *rapid.T) v1Case {
 		c := v1Case{Challenge: genChallenge(t, "chal")}
-		if rapid.Bool().Draw(t, "withPassword") {
+		c.Ctor = rapid.SampledFrom([]string{"password", "password", "nthash", "nthash", "literal"}).Draw(t, "ctor")
+		c.First = rapid.SampledFrom(v1EntryPoints).Draw(t, "first")
+		switch c.Ctor {
+		case "password":
+			// the empty password is a password like any other (NT = MD4(""), LM = the two halves of DES(0^7, magic))
 			c.Password = genASCIIPassword(t)
-		} else {
+		case "literal":
+			// every entry point derives the NT hash of such an instance from the password (Hash documents it;
+			// NTResponse panicked before fc567d6); all of them refuse the empty password, so it is not drawn
+			c.Password = genASCIIPasswordMin(t, 1)
+			c.First = rapid.SampledFrom(v1EntryPoints).Draw(t, "firstLiteral")
+		default:
 			c.NTHash = rapid.SliceOfN(rapid.Byte(), 16, 16).Draw(t, "nt")
 			// hashes whose last two bytes / key thirds are special
 			switch rapid.IntRange(0, 5).Draw(t, "hashClass") {
@@ -162,6 +231,10 @@ func TestV1(t *testing.T) {
 			case 1:
 				copy(c.NTHash[14:], []byte{0xFF, 0xFF})
 			}
+		}
+		s.Class("ctor:" + c.Ctor)
+		if c.Ctor != "nthash" && c.Password == "" {
+			s.Class("empty-password")
 		}
 		return c
 	}, checkV1, v1Nontrivial)
@@ -219,10 +292,27 @@ func checkV2(c v2Case) []vf.Finding {
 	for _, p := range nlmp.VerifyNTLMv2(nt, c.User, c.Domain, c.ServerChallenge, resp, c.ClientChallenge) {
 		fs = append(fs, vf.F("NTLMv2.Hash", kindOf(p), "user %q domain %q: %s", c.User, c.Domain, p))
 	}
+	// the hex form is a response in its own right (the blob carries a fresh timestamp, so it need not equal
+	// resp byte for byte): it goes through the same verifier
 	if hx, err := inst.HashHex(); err != nil || len(hx) != 2*len(resp) {
 		fs = append(fs, vf.F("NTLMv2.HashHex", "hex-form-wrong-length", "%d hex digits (err %v)", len(hx), err))
-	} else if b, _ := hex.DecodeString(hx); len(b) >= 16+8 && !bytes.Equal(b[16:24], resp[16:24]) {
-		fs = append(fs, vf.F("NTLMv2.HashHex", "hex-form-differs", "blob header differs"))
+	} else if b, err := hex.DecodeString(hx); err != nil {
+		fs = append(fs, vf.F("NTLMv2.HashHex", "hex-form-not-hex", "%q: %v", hx, err))
+	} else {
+		if len(b) >= 16+8 && !bytes.Equal(b[16:24], resp[16:24]) {
+			fs = append(fs, vf.F("NTLMv2.HashHex", "hex-form-differs", "blob header differs"))
+		}
+		for _, p := range nlmp.VerifyNTLMv2(nt, c.User, c.Domain, c.ServerChallenge, b, c.ClientChallenge) {
+			fs = append(fs, vf.F("NTLMv2.HashHex", kindOf(p), "user %q domain %q: %s", c.User, c.Domain, p))
+		}
+	}
+	// Hash again after the other output forms: still a response that verifies
+	if again, err := inst.Hash(); err != nil {
+		fs = append(fs, vf.F("NTLMv2.Hash", "error", "second call: %v", err))
+	} else {
+		for _, p := range nlmp.VerifyNTLMv2(nt, c.User, c.Domain, c.ServerChallenge, again, c.ClientChallenge) {
+			fs = append(fs, vf.F("NTLMv2.Hash", kindOf(p), "second call, user %q domain %q: %s", c.User, c.Domain, p))
+		}
 	}
 	// exported key = NTOWFv2
 	if want := refcrypto.NTOWFv2(nt, c.User, c.Domain); !bytes.Equal(inst.ResponseKeyNT[:], want) {
@@ -384,6 +474,9 @@ func genAuth(t *rapid.T, v2 bool) authCase {
 		}
 		// OEM: 7-bit ASCII only
 		n := rapid.IntRange(0, 10).Draw(t, label+"Len")
+		if rapid.IntRange(0, 11).Draw(t, label+"LenClass") == 11 {
+			n = rapid.IntRange(11, 300).Draw(t, label+"LongLen")
+		}
 		b := make([]byte, n)
 		for i := range b {
 			b[i] = byte(rapid.IntRange(0x21, 0x7e).Draw(t, label+"Ch"))
